@@ -187,6 +187,24 @@ pub fn contexts_of(c: &LineCase) -> Vec<(&'static str, LineCase)> {
         ("as the second line of a text", LineCase { text: format!("1 + 1\n{}", c.text), ..c.clone() }),
         ("next to a user rule and a user unit family that match nothing", LineCase { cfg: with_extras, ..c.clone() }),
     ];
+    // the same construct twice on one line ('L + L'): rules fire once per pass and take the first
+    // match, so a second instance on the line is where a scheduling defect shows.  Only for lines
+    // without '+' / '-' of their own and for values that add (number, money, unit quantity, duration).
+    if !c.text.contains('+') && !c.text.contains('-') {
+        let doubled: Option<Val> = match &c.expect {
+            Expect::Value(val, _) | Expect::ValueOut(val, _, _) => match val {
+                Val::Number(x, b) if x.is_finite() => Some(Val::Number(2.0 * x, *b)),
+                Val::Money(x, cur) => Some(Val::Money(2.0 * x, cur.clone())),
+                Val::Unit(x, g, i) => Some(Val::Unit(2.0 * x, g.clone(), *i)),
+                Val::Duration(sec) => Some(Val::Duration(2 * sec)),
+                _ => None,
+            },
+            _ => None,
+        };
+        if let Some(d) = doubled {
+            v.push(("written twice on one line, joined by +", LineCase { text: format!("{} + {}", c.text, c.text), expect: Expect::Value(d, 1e-9), ..c.clone() }));
+        }
+    }
     // a value that does not carry a zone must not depend on the default zone
     let zone_free = match &c.expect {
         Expect::Value(val, _) | Expect::ValueOut(val, _, _) => matches!(val, Val::Number(..) | Val::Percent(..) | Val::Money(..) | Val::Duration(..) | Val::Unit(..)),
